@@ -198,8 +198,14 @@ def build(api, recs, delimiter, rng, how=None, share_lists=False, rejections=Tru
     else:
         c, how = _build(api, recs, built_with, rng, how)
     if built_with != delimiter:
-        c.delimiter = delimiter
-        how += "+delimiter-assigned-later"
+        try:
+            c.delimiter = delimiter
+            how += "+delimiter-assigned-later"
+        except AttributeError:
+            # an implementation whose delimiter cannot be assigned: the circumstance does not exist there
+            probe.S.counters["wl:delimiter-not-assignable"] += 1
+            with probe.monitor_mode():
+                c, how = _build(api, recs, delimiter, rng, "ctor")
     c, how = _circumstance(api, c, delimiter, rng, how)
     if rng.random() < 0.25:
         touch_handed_out_views(c)
@@ -409,6 +415,10 @@ def _circumstance(api, c, delimiter, rng, how):
                 c2, tag = plain_subclass(api)([copy.deepcopy(x) for x in c.records], delimiter=delimiter), "user-subclass"
         except RecursionError:  # the trie nests one node per character: very long URI prefixes cannot be copied today
             probe.S.counters["wl:circumstance:copy-hit-recursion-limit"] += 1
+            return c, how
+        except (TypeError, AttributeError, pickle.PicklingError, copy.Error) as e:
+            # an implementation that does not support this kind of copy at all: the circumstance does not exist there
+            probe.S.counters[f"wl:circumstance:not-supported:{type(e).__name__}"] += 1
             return c, how
         if tag != "user-subclass" and delimiter not in ORIG_PREFIX:
             # the original lives on and grows: nothing of that may show in the copy (asked through gen.query_strings)
